@@ -260,6 +260,28 @@ func hexCase(mant uint64, exp int, neg, trunc bool) {
 	}
 }
 
+// rintCase: the rounding step of the decimal slow path (decimal.RoundedInteger / shouldRoundUp).
+func rintCase(digits string, dp int, trunc bool) {
+	myid := id
+	id++
+	defer func() {
+		if r := recover(); r != nil {
+			hx.Printf("crash %d panic: %s\n", myid, strings.ReplaceAll(fmt.Sprint(r), "\n", " "))
+		}
+	}()
+	ds := "-"
+	if digits != "" {
+		ds = hx.HexS(digits)
+	}
+	hx.Printf("case %d kind=rint d=%s dp=%d trunc=%d tag=rint\n", myid, ds, dp, b01(trunc))
+	n, up := bytesconv.VerifRoundedInteger([]byte(digits), dp, trunc)
+	hx.Printf("obs %d n=%d up=%d\n", myid, n, b01(up))
+	// S: a trimmed, untruncated decimal whose integer part fits is rounded half-even
+	if !trunc && dp >= 0 && dp <= 19 && (digits == "" || digits[len(digits)-1] != '0') {
+		hx.Printf("sobs %d n=%d\n", myid, n)
+	}
+}
+
 func tableCase() {
 	t := bytesconv.VerifPow10Table()
 	var parts []string
@@ -707,6 +729,28 @@ func main() {
 			num, tag := genNum(r)
 			lineCase(strconv.Itoa(1+r.Intn(1000)), num, tag, true)
 		}
+	}
+	// rounding step of the slow path
+	for i := 0; i < hx.N(4000, 80000); i++ {
+		nd := r.Intn(24)
+		ds := randDigits(r, nd)
+		if nd > 0 && r.Chance(3, 4) { // trimmed, as decimal.go keeps it
+			ds = strings.TrimRight(ds, "0")
+		}
+		dp := r.Intn(26) - 3
+		if len(ds) > 0 && r.Chance(1, 3) { // exact halves: digits, then a single 5 (or 50…, 5x)
+			k := r.Intn(len(ds) + 1)
+			ds = ds[:k] + hx.Pick(r, []string{"5", "5", "50", "51", "49", "500001"})
+			dp = k
+		}
+		rintCase(ds, dp, r.Chance(1, 4))
+	}
+	for _, c := range []struct {
+		d  string
+		dp int
+	}{{"5", 0}, {"15", 1}, {"25", 1}, {"35", 1}, {"05", 1}, {"", 0}, {"", 3}, {"1", 3}, {"9", 0}, {"99999999999999999995", 19}, {"18446744073709551615", 20}, {"1", 21}, {"5", -1}, {"5", 1}} {
+		rintCase(c.d, c.dp, false)
+		rintCase(c.d, c.dp, true)
 	}
 	// direct stage cases
 	m := hx.N(15000, 300000)
